@@ -29,7 +29,10 @@ def traces(ctx, runs):
     d = ctx.path("par_traces")
     p = c.vh(["parrec", "--dir", d, "--runs", runs, "--seed", ctx.seed], timeout=3600)
     if p.returncode != 0:
-        raise c.ToolError("parrec failed: " + p.stderr[-500:])
+        # the recorder died inside execute_parallel (abort / stack overflow): that is the property's "always returns"
+        ctx.failures.append({"model": "parallel-trace", "kind": "process-died", "cfg": {}, "prefix": [], "label": {"recorder": "parrec"},
+                             "allowed": ["execute_parallel returns"], "actual": {"exit": p.returncode, "stderr": p.stderr[-400:]}})
+        return
     info = json.loads(p.stdout.strip().splitlines()[-1])
     files = sorted(glob.glob(os.path.join(d, "cfg_*.ndjson")))
     rejected = 0
